@@ -210,6 +210,7 @@ func (p c15) Run(c *core.Ctx, idx int) {
 		o.Sub = idx%3 == 2 || idx%6 == 4 // some top-level nodes written in a submodule: they are the module's own in data
 		o.Presence = true
 		o.ListsOfAll = true
+		o.NumericEnumNames = true
 		o.MaxDepth = 2 + r.Intn(3)
 		if idx%4 == 3 {
 			o.Types = []string{"string", "enumeration", "empty", "bits", "identityref", "binary", "boolean", "uint64", "decimal64"}
